@@ -38,6 +38,50 @@ REG_KEYS = {
     "segments": ["id"],
     "reversers": ["id"],
 }
+# which containers the membership test on a key has to look through (the statement: a DCC address shared between trains and accessories; point /
+# signal ids unique over both kinds of points / signals)
+def _scope(regname, key):
+    if key == "dcc_addr":
+        return {"bidib_trains", "points_dcc", "signals_dcc"}
+    if key == "id" and regname.startswith("points_"):
+        return {"points_board", "points_dcc"}
+    if key == "id" and regname.startswith("signals_"):
+        return {"signals_board", "signals_dcc"}
+    if key in ("id", "unique_id"):
+        return {regname}
+    return set()
+
+
+def _scanned(P, g, depth=0, seen=None):
+    """names of the containers a lookup / membership function reads: globals it loads, members of the track-state object, GArray members of records"""
+    seen = set() if seen is None else seen
+    if g.name in seen or depth > 2:
+        return set()
+    seen.add(g.name)
+    out = set()
+    for i in g.all_insts():
+        if i.op == "load":
+            p_ = i["ptr"]
+            if p_.get("k") == "global":
+                gd = P.globals.get(p_["name"]) or {}
+                mem = None
+                for (n, off, size, mt) in (P.di_members(gd.get("ditype", -1)) or []):
+                    if off == (p_.get("off") or 0):
+                        mem = n
+                out.add(mem or p_["name"])
+                if not p_.get("off"):
+                    out.add(p_["name"])
+            elif p_.get("k") == "inst":
+                fp = rules.field_path_of_ptr(P, g, p_)
+                if fp and "." in fp:
+                    out.add(fp.split(".", 1)[1])
+        elif i.op == "call":
+            h = P.functions.get(i.callee or "")
+            if h is not None and h.blocks:
+                out |= _scanned(P, h, depth + 1, seen)
+    return out
+
+
 RANGES = {
     "t_bidib_train_peripheral_mapping.bit": set(range(0, 32)),
     "t_bidib_train.dcc_speed_steps": {14, 28, 126},
@@ -267,8 +311,11 @@ def run(chk, w):
             for t, keys in tests:
                 pass
             tested = set()
+            scanned = {}
             for t, keys in tests:
                 tested |= keys
+                for k_ in keys:
+                    scanned.setdefault(k_, set()).update(_scanned(P, P.functions[t.callee]))
             # by-value arguments: a temp filled by memcpy from record.field
             for t in f.calls():
                 g = P.functions.get(t.callee or "")
@@ -294,12 +341,14 @@ def run(chk, w):
                                 ch = rules.field_chain(P, f, rules.strip_casts(f, mc.args[1]))
                                 if ch:
                                     tested.add(_key_name(tuple(ch)))
+                                    scanned.setdefault(_key_name(tuple(ch)), set()).update(_scanned(P, g))
                                 else:
                                     s_ = f.resolve(rules.strip_casts(f, mc.args[1]))
                                     while s_ is not None and s_.op in ("bitcast", "getelementptr"):
                                         s_ = f.resolve(s_["a"] if s_.op == "bitcast" else s_["base"])
                                     if s_ is not None and s_.op == "alloca" and s_.get("param") and s_.get("var"):
                                         tested.add({"dcc_address": "dcc_addr"}.get(s_["var"], s_["var"]))
+                                        scanned.setdefault({"dcc_address": "dcc_addr"}.get(s_["var"], s_["var"]), set()).update(_scanned(P, g))
             missing = [k for k in want if k not in tested]
             # guard: the append lies behind a negative membership test
             def neg_test(fn_, gd_, tr_):
@@ -318,6 +367,11 @@ def run(chk, w):
                 chk.violation("C14-REG", f.name, "%s:%s" % (regname, ",".join(missing)), c.loc(),
                               "%s appends to %s without a membership test on %s (tested: %s): two configured entities can share that key and the configuration is accepted" % (
                                   f.name, regname, ", ".join(missing), ", ".join(sorted(tested)) or "nothing"))
+            elif any(_scope(regname, k_) - scanned.get(k_, set()) for k_ in want):
+                k_ = [k_ for k_ in want if _scope(regname, k_) - scanned.get(k_, set())][0]
+                chk.violation("C14-REG", f.name, "%s:%s:scope" % (regname, k_), c.loc(),
+                              "%s appends to %s after a membership test on %s that does not look through %s: an entity of that kind with the same %s is not found and the configuration is accepted" % (
+                                  f.name, regname, k_, ", ".join(sorted(_scope(regname, k_) - scanned.get(k_, set()))), k_))
             elif not guarded:
                 chk.violation("C14-REG", f.name, "%s:unguarded" % regname, c.loc(), "%s appends to %s on a path that has not passed a negative membership test" % (f.name, regname))
             else:
@@ -441,6 +495,14 @@ def run(chk, w):
                 else:
                     chk.ok("C14-LOCAL", 1, {"function": f0.name, "record": tname, "key": key, "comparison": cmps[0][0].loc()})
     chk.floor("local_list_appends", nloc, 5)
+
+    # ------------------------------------------------------------------ IDEQ (shared with C09)
+    from . import c09 as _c09
+    _c09.ideq_rule(chk, P, "C14-IDEQ", 60, only=lambda f_: f_.relfile.startswith(("src/parser/", "src/state/")))
+
+    # ------------------------------------------------------------------ GET
+    from .. import enumrule
+    enumrule.run(chk, P, "C14-GET", lambda f_: f_.relfile == "src/highlevel/bidib_highlevel_getter.c", 20)
 
     # ------------------------------------------------------------------ RANGE
     chk.rule("C14-RANGE", "the set of byte values of a range-restricted configuration field for which no error-raising comparison fires equals the documented set")
